@@ -11,7 +11,7 @@ GEN_ONE_CLOSURE = ('N9', r'unwrap_or_else\(Generation::one\)', 'unwrap_or_else(|
 def build():
     u = Unit('alloc',
              prelude=['prelude/std_nonzero.rs', 'prelude/std_atomic.rs', 'prelude/hibitset.rs', 'prelude/std_iter.rs'],
-             spec=['alloc/spec.rs'],
+             spec=['alloc/spec.rs', 'alloc/spec_merge.rs'],
              files=[F])
     u.struct(F, ['type Index'])
     u.struct(F, ['struct Generation'], derive=DER)
@@ -144,4 +144,33 @@ def build():
                 ('before', 'return Err', 'proof { if self.cache@.len() == p.cache@.len() + index { assert(/*@L:hint.free_prefix*/ self.cache@ =~= p.cache@ + ids(delete@.subrange(0, index as int)) /*@E*/); } lemma_kill_done(old(self), &p, &*self, delete@, index as nat); }'),
                 ('after', 'if !self.is_alive(', 'proof { lemma_kill_cur(old(self), &p, delete@, index as nat); assert(p.abs().occ(delete@[index as int].0)); assert(p.alive@.contains(delete@[index as int].0) <==> p.gid(delete@[index as int].0 as int) > 0); assert(p.raised@.contains(delete@[index as int].0) ==> p.gid(delete@[index as int].0 as int) <= 0); }'),
                 ('before_tail', None, 'proof { assert(delete@.subrange(0, delete@.len() as int) =~= delete@); if self.cache@.len() == mid.cache@.len() + delete@.len() { assert(/*@L:hint.free_all*/ self.cache@ =~= mid.cache@ + ids(delete@) /*@E*/); } lemma_kill_done(old(self), &mid, &*self, delete@, delete@.len()); }')])
+    u.fn(F, ['impl Allocator', 'fn merge'], ret='r', props='C01 C02',
+         requires=[E('wf', 'old(self).wf()'), E('headroom', 'old(self).headroom()')],
+         ensures=[E('wf', 'final(self).wf()', 'C01 C02'),
+                  E('core', 'final(self).abs().core_eq(old(self).abs().merged())', 'C01 C02 C05 C20'),
+                  E('out', 'r@.map_values(|e: Entity| hid(e)) =~= old(self).abs().merged_out()', 'C02 C05 C20'),
+                  E('out_current', 'forall|j: int| 0 <= j < r@.len() ==> old(self).abs().current(#[trigger] r@[j])', 'C02 C05'),
+                  E('free', 'final(self).abs().free == old(self).abs().merged().free', 'C17 C20'),
+                  E('complete', 'old(self).wf_complete() ==> final(self).wf_complete()', 'C17'),
+                  E('headroom', 'final(self).headroom_n(2)', 'C01')],
+         closures={'|e| e.0': dict(params='e: &Entity', ret='r__: Index', ensures=[('id', 'r__ == e.0')])},
+         loops={0: dict(iter_name='it',
+                        invariant=[E('inv', 'merge_inv1(old(self), &*self, it.index@ as nat)'),
+                                   E('seq', 'it.seq() == sorted_seq(old(self).raised@)'),
+                                   E('pre', 'old(self).wf() && old(self).headroom() && deleted@.len() == 0'),
+                                   E('mid', 'mid == *self')],
+                        start='let ghost p = *self; proof { lemma_merge_pre1(old(self), &p, it.index@ as nat); }',
+                        end='proof { lemma_merge_iter1(old(self), &p, &*self, it.index@ as nat); mid = *self; }'),
+                1: dict(iter_name='it',
+                        invariant=[E('inv', 'merge_inv2(old(self), &*self, it.index@ as nat, deleted@)'),
+                                   E('seq', 'it.seq() == sorted_seq(old(self).killed@)'),
+                                   E('pre', 'old(self).wf() && old(self).headroom()'),
+                                   E('mid', 'mid == *self')],
+                        start='let ghost p = *self; let ghost dp = deleted@; proof { lemma_merge_pre2(old(self), &p, it.index@ as nat, dp); }',
+                        end='proof { lemma_merge_iter2(old(self), &p, &*self, it.index@ as nat, dp, deleted@); mid = *self; }')},
+         hint_obligations=[E('free_all', 'the free list after merge is the old one plus the ids of the returned handles', 'C17 C20')],
+         hints=[('start', None, 'broadcast use axiom_iter_seq_map_slice; let ghost mut mid: Allocator = *self;'),
+                ('before_loop', 0, 'proof { lemma_merge_init(old(self), &*self); mid = *self; }'),
+                ('before_loop', 1, 'proof { lemma_merge_mid(old(self), &mid, &*self); mid = *self; }'),
+                ('before_tail', None, 'proof { if self.cache@.len() == mid.cache@.len() + deleted@.len() { assert(/*@L:hint.free_all*/ self.cache@ =~= mid.cache@ + ids(deleted@) /*@E*/); } lemma_merge_done(old(self), &mid, &*self, deleted@); }')])
     return u
